@@ -219,3 +219,32 @@ PROPS["C19"] = dict(
     rule="cases: all pairs of paths of 1..MaxLen (3 quick / 5 thorough) components over 3 names x {absolute, relative} x {'/', '\\\\'}; seeded random pairs of 1..6 components over pools of 2..5 names incl. names with spaces, dots and non-ASCII; distinct = distinct (base, target, abs, sep); non-trivial = at least 3 components in total",
     assumptions=COMMON_ASSUMPTIONS,
 )
+
+def _corrupt_c20(e):
+    o = e["out"]
+    for g in o.get("gets", []):
+        if g["k"] == "ok":
+            g["v"] = g["v"] + [1]
+            return True
+    if o["startup"]["k"] == "ok":
+        o["startup"]["v"] = o["startup"]["v"] + [9]
+        return True
+    o["count"] += 1
+    return True
+
+PROPS["C20"] = dict(
+    level="model_checking",
+    level_text="RamBundle.tla has a writer (Layout of a bundle model in any physical order) and a declarative reader (recognition, module count, startup code, get_module, iterator) with 32-bit fields kept as bytes; TLC checks reader o writer = identity on every small model and that no ok result exceeds the buffer, and enumerates every model x every single corruption (truncation at every length, each count/size/offset/length field set to boundary and near-2^32 values, wrong magic). Every byte string is parsed by the real crate and every access is judged by TLC; seeded bundles of up to 50 modules with random corruptions extend the sizes.",
+    level_note="an empty read exactly at the end of the buffer (scroll reports BadOffset) is left free: the statement does not decide it; the module iterator is observed for ids < 64",
+    technique="TLA+ writer/reader specification of the bundle layout, TLC bounded model checking + fault enumeration, trace validation of real parse/get_module/iter_modules results",
+    mc=[
+        dict(module="MC_RamBundle", cfg="MC_RamBundle_quick.cfg", tiers=("quick",), workers=8),
+        dict(module="MC_RamBundle", cfg="MC_RamBundle_thorough.cfg", tiers=("thorough",), workers=14, timeout=3400, heap="24g"),
+    ],
+    trace="Trace_C20",
+    drive=dict(quick=dict(n=3000, size=4), thorough=dict(n=100000, size=8)),
+    nontrivial=lambda e: len(e["args"]["bytes"]) >= 12,
+    corrupt=_corrupt_c20,
+    rule="cases: every model of MC_RamBundle (0..MaxSlots slots from {empty, NUL-only, 1 byte, non-UTF-8 with embedded NUL}, 2-3 startup codes, every physical order) laid out and left intact or hit by one corruption (truncation at every length; each header/table field set to 0, 1, len-12, len, len+1, 2^31-1, 2^31, 2^32-1, 2^32-sco, 2^32-sco-1; each magic byte changed); seeded random bundles (<= 50 modules) with random truncation / field / magic / byte corruptions; distinct = distinct byte string; non-trivial = at least a complete header",
+    assumptions=COMMON_ASSUMPTIONS + ["harness built with feature ram_bundle; unbundle (file system) bundles are out of scope"],
+)
